@@ -3,7 +3,7 @@
 From Coq Require Import QArith Qcanon List String Bool.
 Import ListNotations.
 From S2 Require Import Base.Num Base.Arr Model.Expr Model.Struct Model.Rates Spec.RatesSpec
-     Model.Run Model.Api Proofs.NumQc Proofs.ExprLemmas Proofs.ParamProofs Proofs.RunExt Props.Examples.
+     Model.Run Model.Api Proofs.NumQc Proofs.ExprLemmas Proofs.ParamProofs Proofs.RunExt Proofs.ApiProofs Props.Examples.
 
 (* any expression (arithmetic, piecewise, interpolation, of parameters, time and state): replacing the
    named parameter k by the literal v = running with k := v *)
@@ -49,6 +49,17 @@ Theorem C09_inputs_sound :
     (forall k, In k (flow_params f) -> p k = q k) -> weight_spec O p t x f = weight_spec O q t x f.
 Proof. exact weight_env_ext. Qed.
 Print Assumptions C09_inputs_sound.
+
+(* one run, one set of values: for every runner (any partition of the parameters into fixed-at-build and run-time, any
+   default parameters, any values in the call) the derived-output functions see every parameter at the value the rates
+   see.  What was fixed when the runner was built is fixed for the whole run; the call and the defaults only supply the
+   rest.  (Before the repair of /repo recorded in known_findings.json the derived outputs took a fixed parameter from
+   the call or from the defaults when one was present there.) *)
+Theorem C09_derived_env_consistent :
+  forall (O : NumOps) (r : runner) (p : params) (k : string),
+    runner_env_derived O r p k = runner_env O r p k.
+Proof. exact derived_env_consistent. Qed.
+Print Assumptions C09_derived_env_consistent.
 
 (* ... and for the whole run: two parameter sets that agree on model.get_input_parameters() give the
    same initial population, trajectory and derived outputs, for every model and both fixed-step
